@@ -63,6 +63,7 @@ NodesS ==
     F("/o/md/new/1", "plain"),
     D("/o/new"), D("/o/cur"), D("/o/tmp"), F("/o/new/1", "plain"),  \* parent of the root is a Maildir
     D("/o/w"), F("/o/w/g", "plain"), F("/o/w/m.mbox", "mbox"), F("/o/w/s.sh", "exec"),
+    F("/o/w/i.zip", "zip"), F("/o/w/p.zip", "zip"),
     D("/o/w/k"), F("/o/w/k/g", "plain"), F("/o/w/k/s.sh", "exec"),  \* a working directory
     \* ---- the document root ----
     D("/o/r"),
@@ -85,13 +86,15 @@ Tree == [c \in TreePaths |-> LET n == CHOOSE n \in NodesS : Canon(n.p) = c
 
 \* members of the archive /o/r/z.zip (the in-memory index of VFSZip); "exec" = archived with mode 0755
 ZipDirs  == {"", "k", "md", "md/new", "md/cur"}
-ZipFiles == {"g", "k/g", "k/s.sh", "m.mbox", "s.sh", "md/new/1"}
+ZipFiles == {"g", "k/g", "k/s.sh", "m.mbox", "s.sh", "md/new/1", "i.zip", "p.zip"}
 ZipMembers ==
   [ m \in {Q(p) : p \in ZipDirs \cup ZipFiles} |->
       LET p == CHOOSE p \in ZipDirs \cup ZipFiles : Q(p) = m IN
       CASE p \in ZipDirs               -> [k |-> "dir", f |-> IF p = "md" THEN "maildir" ELSE "plain"]
         [] p = "m.mbox"                -> [k |-> "file", f |-> "mbox"]
         [] p \in {"s.sh", "k/s.sh"}    -> [k |-> "file", f |-> "exec"]
+        [] p = "i.zip"                 -> [k |-> "file", f |-> "zip"]      \* a member that is itself an archive
+        \* ("p.zip": a member NAMED like an archive whose bytes are not one)
         [] OTHER                       -> [k |-> "file", f |-> "plain"] ]
 
 Inside(n) == Len(n) >= Len(RootC) /\ SubSeq(n, 1, Len(RootC)) = RootC
